@@ -741,6 +741,10 @@ func (p *c12) Run(i int) (res fw.Result) {
 }
 
 func (p *c12) Rule() string {
+	return p.ruleBase() + " " + "Round 12: six cases with an environment assembled by hand (stick.New + the Twig filters + twig.NewAutoEscapeExtension registered) and an application's own escaper under the content type json, stored in the extension's Escapers before and after the extension is registered: templates d.json (prints at top level, in if / for / block / capture, explicit escape for json and for html, an included part.json.twig), page.html including it, child.json extending it; expected output computed from the escaper (hexadecimal in brackets) for each of the 13 payloads."
+}
+
+func (p *c12) ruleBase() string {
 	return fmt.Sprintf("exhaustive product for single-construct templates: %d template names (html, html.twig, js, js.twig, css, txt, txt.twig, no extension, .twig only, unknown extensions xml/foo/json/HTML, url, html_attr, names with a dot in a directory part, and inline sources through the string loader with and without dots, also ending in '.txt', '.js' or '.css.twig') x %d constructs (top level, if/else/elseif, for, for-else, for..if, loop value, block, nested, overridden/inherited block, three-level chain, parent(), block(), include, include-with-only, embed with override, a capture at the top level of an extending template used raw inside a block, set-capture, filter section, macro, imported macro, ternary, concatenation, interpolation, via set, attribute access, filter results, raw, explicit escape) x helper template of the same / a different content type x %d payloads x 9 value wrappers (plain, safe for the same type, safe for another type, nested safe for other types, safe for another type while a value derived from it was marked safe for this type, named int / bool / float types and a struct whose String method returns the payload); random payloads over the significant alphabet on top; plus seeded random multi-template programs (every tag, inheritance, include/embed/use/import, macros, captures, filter sections, all built-in filters except raw) whose own text and string literals are inert while every context string is a hostile payload - their whole output must be HTML-inert. Every print is bracketed by inert sentinels; template literal text uses an inert alphabet. Oracles: (exactness) each directly printed segment equals escaper(value) applied once for the content type of the template that contains the print (statement's rule: registered extension, txt = none, html otherwise), raw and same-type-safe values unchanged, explicit escape = implicit; (safety) in single-type cases the whole output contains no character significant for that type outside escape sequences - this also covers prints routed through captures, filter sections, macros, block() and parent(). Non-trivial = the payload contains a character the resolved escaper changes; distinct = (name, construct, helper variant, payload, wrapper).", len(c12Names), len(c12Constructs), len(c12Payloads))
 }
 
